@@ -8,6 +8,7 @@ import (
 	"pgregory.net/rapid"
 
 	"github.com/bluenviron/gomavlib/v3/pkg/dialect"
+	"github.com/bluenviron/gomavlib/v3/pkg/frame"
 
 	"verifharness/evid"
 	"verifharness/ref"
@@ -198,7 +199,7 @@ func TestC07WindowEnumerated(t *testing.T) {
 
 func TestC07WindowRandom(t *testing.T) {
 	rec := evid.New(t, "C07", "rapid histories (<=40 frames) mixing boundary values, random 48-bit timestamps and newest+-delta around 1,000,000; model comparison at every step; non-trivial = some frame older than newest but inside the window, on the boundary, or newest < 1,000,000; distinct by hash of the history")
-	rec.Require("inside-window", "on-boundary", "just-outside", "newest-below-window", "forged-interleaved", "dialect-reader-known+unknown-messages", "frame-repeated-byte-for-byte", "run-of-8+-stale-frames-with-rising-timestamps", "transport-error-between-frames")
+	rec.Require("inside-window", "on-boundary", "just-outside", "newest-below-window", "forged-interleaved", "dialect-reader-known+unknown-messages", "frame-repeated-byte-for-byte", "run-of-8+-stale-frames-with-rising-timestamps", "transport-error-between-frames", "same-key-stored-again-between-frames")
 	common, _ := dialects(t)
 	evid.Check(t, rec, evid.N(40000, 200000), func(t *rapid.T) {
 		readBufSize = 512
@@ -293,6 +294,27 @@ func TestC07WindowRandom(t *testing.T) {
 				t.Fatalf("%s", msg)
 			}
 			cs = append(cs, "transport-error-between-frames")
+		}
+		// the same history while the application stores the link's key into the reader again (the same 32 bytes,
+		// a new value: what a configuration reload does): the window belongs to the link, not to the key object
+		if rapid.IntRange(0, 2).Draw(t, "key_stored_again") == 0 {
+			at := map[int]bool{}
+			for k := rapid.IntRange(1, 3).Draw(t, "nrekey"); k > 0; k-- {
+				at[rapid.IntRange(1, len(hist)).Draw(t, "rekey_before")] = true
+			}
+			readAllHook = func(rd *frame.Reader, call int) {
+				if at[call] {
+					rd.InKey = keyOf(&c07Key)
+				}
+			}
+			_, err := runHistory(hist, nil)
+			readAllHook = nil
+			if err != nil {
+				msg := fmt.Sprintf("with the same key stored into Reader.InKey again before the calls %v: %v", at, err)
+				evid.ReplayNote("C07", "TestC07WindowRandom", msg)
+				t.Fatalf("%s", msg)
+			}
+			cs = append(cs, "same-key-stored-again-between-frames")
 		}
 		// the same history on a reader that has a dialect, the frames carrying known and unknown messages
 		if rapid.Bool().Draw(t, "with_dialect") {
